@@ -89,6 +89,7 @@ where
     let next = AtomicU64::new(0);
     let results: Mutex<BTreeMap<u64, CaseOutcome>> = Mutex::new(BTreeMap::new());
     let stop = AtomicU64::new(u64::MAX);
+    let harness_panics: Mutex<Vec<(u64, String)>> = Mutex::new(Vec::new());
     std::thread::scope(|s| {
         for _ in 0..cfg.jobs.max(1) {
             s.spawn(|| {
@@ -103,7 +104,17 @@ where
                     }
                     crate::note_current_run(cfg.prop, cfg.seed, i);
                     let seed = crate::rng::mix(cfg.seed, crate::rng::tag_of(cfg.prop), i);
-                    let out = f(seed, i);
+                    let out = match std::panic::catch_unwind(std::panic::AssertUnwindSafe(|| f(seed, i))) {
+                        Ok(o) => o,
+                        Err(_) => {
+                            // a panic outside the guarded library calls is a bug of the simulator itself
+                            let loc = crate::last_panic_location();
+                            let mut h = harness_panics.lock().unwrap();
+                            h.push((i, loc));
+                            stop.fetch_min(i, Ordering::SeqCst);
+                            continue;
+                        }
+                    };
                     let bad = out.viols.iter().any(|v| v.prop == cfg.prop && known.matches(v).is_none());
                     if bad {
                         // later runs are not needed once an unlisted violation exists; lower indices still finish
@@ -115,6 +126,11 @@ where
         }
     });
     let results = results.into_inner().unwrap();
+    let harness_panics = harness_panics.into_inner().unwrap();
+    if let Some((i, loc)) = harness_panics.iter().min() {
+        eprintln!("harness error: the simulator itself panicked in run {} at {} (seed formula: mix(VERIF_SEED={}, tag({}), {}))", i, loc, cfg.seed, cfg.prop, i);
+        std::process::exit(2);
+    }
     // merge in index order, over the longest gap-free prefix (so that output is independent of the worker count)
     let mut evaluations = 0u64;
     let mut cases = 0u64;
